@@ -739,6 +739,65 @@ for _k, _doc in (("rotation", "rotating cell vectors and atom positions together
                         doc=f"BOUNDED: every energy component (Ekin, Ecoul, Exc, Eloc, Enonloc, Eewald) at fixed coefficients is unchanged by {_doc}"))
 
 
+class EwaldRotationAnisotropic:
+    """BOUNDED: the Ewald energy of a strongly anisotropic cell (5 x 6 x 17 bohr, and a triclinic one of similar proportions) under proper rotations that turn the long
+    axis into directions where the cell is short (quarter turns, a third of a turn about the diagonal, 83 degrees about x, random): the image counts per
+    lattice direction must follow the LATTICE VECTORS, not the Cartesian axes. Absolute tolerance 1e-9 Eh (measured on the unchanged tree: below 1e-12)."""
+
+    def problems(self, seed):
+        import eminus
+        from eminus import Atoms
+        from eminus.energies import get_Eewald
+
+        eminus.config.backend = "numpy"
+        eminus.config.verbose = "critical"
+        rng = np.random.default_rng(seed)
+
+        def axis_angle(ax, deg):
+            ax = np.asarray(ax, float) / np.linalg.norm(ax)
+            t = np.deg2rad(deg)
+            K = np.array([[0, -ax[2], ax[1]], [ax[2], 0, -ax[0]], [-ax[1], ax[0], 0]])
+            return np.eye(3) + np.sin(t) * K + (1 - np.cos(t)) * K @ K
+
+        rots = [("quarter turn about x", axis_angle([1, 0, 0], 90)), ("quarter turn about y", axis_angle([0, 1, 0], 90)), ("third of a turn about (1,1,1)", axis_angle([1, 1, 1], 120)),
+                ("83 degrees about x", axis_angle([1, 0, 0], 83)), ("random rotation", _rotation(rng))]
+        cells = {"orthorhombic 5 x 6 x 17": np.diag([5.0, 6.0, 17.0]), "triclinic, long third vector": np.array([[5.0, 0.4, 0.0], [0.3, 6.0, 0.5], [1.0, 2.0, 17.0]])}
+        frac = np.array([[0.1, 0.2, 0.05], [0.6, 0.4, 0.3], [0.3, 0.8, 0.62], [0.85, 0.15, 0.9]])
+        bad = []
+        worst = 0.0
+        for cname, a in cells.items():
+            pos = frac @ a
+            for kw in ({}, dict(gcut=3.0)):
+                def E(a_, pos_, kw=kw):
+                    at = Atoms(["Si", "C", "O", "H"], pos_, ecut=1, a=a_)
+                    at.s = [4, 4, 6]
+                    at.build()
+                    return float(get_Eewald(at, **kw))
+
+                e0 = E(a, pos)
+                for rname, R in rots:
+                    e1 = E(a @ R.T, pos @ R.T)
+                    worst = max(worst, abs(e1 - e0))
+                    if abs(e1 - e0) > 1e-9:
+                        bad.append(dict(cell=cname, rotation=rname, arguments=kw or "defaults", Eewald=e0, Eewald_rotated=e1, change=abs(e1 - e0)))
+        return bad, worst
+
+    def __call__(self, ob, tier, seed):
+        bad, worst = self.problems(seed)
+        if bad:
+            return Result(REFUTED, backend="native", witness=dict(seed=seed, first=bad[0]), replayed=True, replay_info=dict(failing=bad[:5]),
+                          detail=f"Ewald energy changes by {bad[0]['change']:.2e} Eh under a {bad[0]['rotation']} of the {bad[0]['cell']} cell ({bad[0]['arguments']})")
+        return Result(BOUNDED_OK, backend="native", detail=f"bounded: 2 anisotropic cells x 5 proper rotations x (default parameters, gcut = 3): largest change of the Ewald energy {worst:.1e} Eh")
+
+    def replay(self, wit):
+        bad, _ = self.problems(wit["seed"])
+        return bool(bad), dict(failing=bad[:5])
+
+
+register(Obligation(name="C06.energies.rotation_anisotropic_cell_ewald", prop=PROP, engine="B", bounded=True, run=EwaldRotationAnisotropic(), functions=["eminus.energies:get_Eewald"],
+                    doc="BOUNDED: the Ewald energy of strongly anisotropic cells is unchanged (1e-9 Eh) by rotations that turn the long lattice vector towards Cartesian directions where the cell is short"))
+
+
 # ------------------------------------------------------------------------------------------------
 # atom relabelling of the local pseudopotential (engine Z)
 # ------------------------------------------------------------------------------------------------
